@@ -105,7 +105,17 @@ pub fn guard<T>(f: impl FnOnce() -> T) -> Result<T, String> {
     GUARD_DEPTH.with(|g| g.set(g.get() - 1));
     match r {
         Ok(v) => Ok(v),
-        Err(_) => Err(take_panic_msg()),
+        Err(_) => {
+            let m = take_panic_msg();
+            // a panic raised by the harness or the reference model itself is a machinery failure, never a verdict
+            if let Some(loc) = m.rsplit(" @ ").next() {
+                if loc.starts_with("tzmc/src") || loc.starts_with("refmodel/src") || loc.contains("/verif/harness/") {
+                    eprintln!("MACHINERY PANIC (harness code, not tz-rs): {m}");
+                    std::process::exit(4);
+                }
+            }
+            Err(m)
+        }
     }
 }
 
